@@ -1,0 +1,8 @@
+//go:build verif
+
+package layers
+
+// VerifLotsOfZeros exposes the package-level zero buffer that TCP.SerializeTo
+// hands out as Padding, so that a verification build can check that nothing
+// ever wrote into it.
+func VerifLotsOfZeros() []byte { return lotsOfZeros[:] }
